@@ -22,6 +22,20 @@ CHECKS = {
              "arguments, not for all reals; integrate.pyx cannot be rebuilt here (no Cython)."),
 }
 
+CHECKS["C01"] = dict(
+    level="model_checking", design="5 C01",
+    technique="TLA+ state machine of a ply stack (Laminate.tla) with exact rational ABDE = through-thickness integral; "
+              "TLC checks symmetry, exact LDL^T positive definiteness, offset law, mirror/rot90/order/symmetric-stack "
+              "action properties; TLC-generated definitions and behaviours replayed into read_stack / Panel.lam, "
+              "verdict by TLC trace validation",
+    text="For rational-tangent ply angles every ABDE entry is a rational number; TLC computes it from the definition "
+         "(rotation as the matrix product Te^T Q Te, Q = inverse compliance, z from -t/2+d), checks the listed "
+         "consequences on every reachable stack of the bounded model as invariants and action properties, and decides "
+         "entry by entry whether the code's A, B, D, E (all call forms) equal it within 2^-38 of the term magnitude, on "
+         "the TLC-enumerated lattice, on TLC-generated transformation behaviours and on seeded random stacks of 1..8 plies.",
+    note="Trusted: TLC/SANY, BigInt/Rat definitions (accelerator via differential self-test). Angles restricted to rational "
+         "tangents (dense in the reals); real-valued angles are covered only through that lattice.")
+
 NOT_YET = {}
 
 NA = {
